@@ -129,7 +129,7 @@ package vm
 // The run loop.
 //@ func (*Type).Run [C05,C10,C04,C03,C18,C02,C09,C17,C19]
 //@   checks panic [C05]
-//@   requires[code_wf] vm != nil && vm.main != nil && codeWF(vm.CR.CS, vm.CR.DS)
+//@   requires[code_wf;C05] vm != nil && vm.main != nil && codeWF(vm.CR.CS, vm.CR.DS)
 //@   modifies *
 //@   loop 0 invariant[code] cs == vm.CR.CS && ds == vm.CR.DS && codeWF(cs, ds)
 //@   loop 1 invariant[rcont] cs == vm.CR.CS && ds == vm.CR.DS && codeWF(cs, ds) && (forall j :: lo <= j && j < i ==> !imhas(ctxp.children, hashContext(m, j)))
